@@ -175,12 +175,17 @@ def check_instance(run, db, cls, fns):
         site = {'function': CT + '::next_iteration', 'role': 'cyclic successor and reset of the same region'}
         S = [s for s in fwd.summarize(f, roles={}) if s.end == 'return']
         probs = []
+        SUCC = ('(1 + this.cur_)', '(this.cur_ + 1)')
+        MOD = tuple('(%s %% T:N)' % x for x in SUCC) + tuple('((%s == T:N) ? 0 : %s)' % (x, x) for x in SUCC)
+        WRAP = tuple('(%s == T:N)' % x for x in SUCC) + tuple('(T:N == %s)' % x for x in SUCC) + tuple('(T:N <= %s)' % x for x in SUCC)
         for s in S:
-            w = [x for x in s.writes if x[0] == 'this.cur_']
-            if len(w) != 1 or w[0][1] not in ('((1 + this.cur_) % T:N)', '((this.cur_ + 1) % T:N)', '(((1 + this.cur_) == T:N) ? 0 : (1 + this.cur_))'):
-                probs.append('cur_ becomes %s, not its cyclic successor' % ([x[1] for x in w] or 'unchanged'))
+            nxt = sym.canon(s.fields['this.cur_'], {}) if 'this.cur_' in s.fields else None
+            wrapped = [tk for c, tk in s.conds if c in WRAP]
+            # one expression, or the two-branch form: wrap test true -> 0, false -> cur_ + 1
+            good = nxt in MOD and not wrapped or (wrapped == [True] and nxt == '0') or (wrapped == [False] and nxt in SUCC)
+            if not good:
+                probs.append('cur_ becomes %s%s, not its cyclic successor' % (nxt or 'unchanged', (' under %s' % s.cond_key()[:2]) if s.conds else ''))
                 continue
-            nxt = w[0][1]
             un = [c for c in s.calls if c[1].get('short') == 'unwind']
             if len(un) != 1:
                 probs.append('unwinds %d stacks' % len(un))
